@@ -18,7 +18,7 @@ use serde_json::json;
 use std::collections::BTreeSet;
 use std::panic::{catch_unwind, AssertUnwindSafe};
 use tantivy::query::{
-    AllQuery, AllScorer, BitSetDocSet, BooleanQuery, BoostQuery, ConstScoreQuery, ConstScorer, EmptyScorer,
+    AllQuery, AllScorer, BitSetDocSet, BooleanQuery, BoostQuery, ConstScoreQuery, ConstScorer, DisjunctionMaxQuery, EmptyScorer,
     EnableScoring, Exclude, Occur, PhrasePrefixQuery, PhraseQuery, Query, RangeQuery, RequiredOptionalScorer, Scorer,
     SumCombiner, TermQuery,
 };
@@ -132,6 +132,9 @@ enum T {
     SUnion { cs: Vec<T> },
     /// `Disjunction` (minimum-should-match heap), `min_match >= 2`
     Disj { sum: bool, min_match: usize, cs: Vec<T> },
+    /// top-level `BufferedUnionScorer` with `DisjunctionMaxCombiner::with_tie_breaker(tie4 / 4)`;
+    /// not modelled in Lean: oracle only (brute-force dismax of the children's scores)
+    DisMax { tie4: u8, cs: Vec<T>, num_docs: u32 },
 }
 
 fn merge(a: &[u32], b: &[u32]) -> Vec<u32> {
@@ -162,7 +165,7 @@ impl T {
                 acc
             }
             T::ReqOpt { req, .. } => req.docs(),
-            T::SUnion { cs } => cs.iter().fold(vec![], |acc, c| merge(&acc, &c.docs())),
+            T::SUnion { cs } | T::DisMax { cs, .. } => cs.iter().fold(vec![], |acc, c| merge(&acc, &c.docs())),
             T::Disj { min_match, cs, .. } => {
                 let mut cnt: std::collections::BTreeMap<u32, usize> = Default::default();
                 for c in cs {
@@ -190,7 +193,7 @@ impl T {
                 if es.iter().any(|e| e.score_at(d).is_some()) { None } else { u.score_at(d) }
             }
             T::ReqOpt { sum, req, opt } => req.score_at(d).map(|r| if *sum { r + opt.score_at(d).unwrap_or(0) } else { 1 }),
-            T::SUnion { cs } => if cs.iter().any(|c| c.score_at(d).is_some()) { Some(1) } else { None },
+            T::SUnion { cs } | T::DisMax { cs, .. } => if cs.iter().any(|c| c.score_at(d).is_some()) { Some(1) } else { None },
             T::Disj { sum, min_match, cs } => {
                 let v: Vec<u32> = cs.iter().filter_map(|c| c.score_at(d)).collect();
                 if v.len() < *min_match { None } else if *sum { Some(v.iter().sum()) } else { Some(1) }
@@ -200,7 +203,7 @@ impl T {
     fn depth(&self) -> usize {
         match self {
             T::Leaf { .. } => 0,
-            T::BUnion { cs, .. } | T::Inter { cs, .. } | T::SUnion { cs } | T::Disj { cs, .. } => 1 + cs.iter().map(|c| c.depth()).max().unwrap_or(0),
+            T::BUnion { cs, .. } | T::Inter { cs, .. } | T::SUnion { cs } | T::Disj { cs, .. } | T::DisMax { cs, .. } => 1 + cs.iter().map(|c| c.depth()).max().unwrap_or(0),
             T::Excl { u, es, .. } => 1 + u.depth().max(es.iter().map(|c| c.depth()).max().unwrap_or(0)),
             T::ReqOpt { req, opt, .. } => 1 + req.depth().max(opt.depth()),
         }
@@ -215,13 +218,14 @@ impl T {
             T::ReqOpt { .. } => "reqopt",
             T::SUnion { .. } => "sunion",
             T::Disj { .. } => "disj",
+            T::DisMax { .. } => "dismax",
         }
     }
     fn has_nested_bunion_in_bunion(&self) -> bool {
         match self {
             T::Leaf { .. } => false,
             T::BUnion { cs, .. } => cs.iter().any(|c| matches!(c, T::BUnion { .. }) || c.has_nested_bunion_in_bunion()),
-            T::Inter { cs, .. } | T::SUnion { cs } | T::Disj { cs, .. } => cs.iter().any(|c| c.has_nested_bunion_in_bunion()),
+            T::Inter { cs, .. } | T::SUnion { cs } | T::Disj { cs, .. } | T::DisMax { cs, .. } => cs.iter().any(|c| c.has_nested_bunion_in_bunion()),
             T::Excl { u, es, .. } => u.has_nested_bunion_in_bunion() || es.iter().any(|c| c.has_nested_bunion_in_bunion()),
             T::ReqOpt { req, opt, .. } => req.has_nested_bunion_in_bunion() || opt.has_nested_bunion_in_bunion(),
         }
@@ -229,11 +233,30 @@ impl T {
 }
 
 impl T {
+    fn has_dismax(&self) -> bool {
+        matches!(self, T::DisMax { .. })
+    }
+    /// brute-force score of `d` as the real combiner computes it (exact in f32 for the small integer
+    /// child scores and tie breakers 1/4, 1/2 used here)
+    fn score_f32(&self, d: u32) -> Option<f32> {
+        match self {
+            T::DisMax { tie4, cs, .. } => {
+                let v: Vec<f32> = cs.iter().filter_map(|c| c.score_f32(d)).collect();
+                if v.is_empty() {
+                    return None;
+                }
+                let max = v.iter().cloned().fold(0.0f32, f32::max);
+                let sum: f32 = v.iter().sum();
+                Some(max + (sum - max) * (*tie4 as f32 / 4.0))
+            }
+            _ => self.score_at(d).map(|x| x as f32),
+        }
+    }
     fn has_inter(&self) -> bool {
         match self {
             T::Leaf { .. } => false,
             T::Inter { .. } => true,
-            T::BUnion { cs, .. } | T::SUnion { cs } | T::Disj { cs, .. } => cs.iter().any(|c| c.has_inter()),
+            T::BUnion { cs, .. } | T::SUnion { cs } | T::Disj { cs, .. } | T::DisMax { cs, .. } => cs.iter().any(|c| c.has_inter()),
             T::Excl { u, es, .. } => u.has_inter() || es.iter().any(|c| c.has_inter()),
             T::ReqOpt { req, opt, .. } => req.has_inter() || opt.has_inter(),
         }
@@ -241,7 +264,7 @@ impl T {
     fn has_bunion(&self) -> bool {
         match self {
             T::Leaf { .. } => false,
-            T::BUnion { .. } => true,
+            T::BUnion { .. } | T::DisMax { .. } => true,
             T::Inter { cs, .. } | T::SUnion { cs } | T::Disj { cs, .. } => cs.iter().any(|c| c.has_bunion()),
             T::Excl { u, es, .. } => u.has_bunion() || es.iter().any(|c| c.has_bunion()),
             T::ReqOpt { req, opt, .. } => req.has_bunion() || opt.has_bunion(),
@@ -250,7 +273,7 @@ impl T {
     fn has_bitset(&self) -> bool {
         match self {
             T::Leaf { kind, .. } => *kind == 2,
-            T::BUnion { cs, .. } | T::Inter { cs, .. } | T::SUnion { cs } | T::Disj { cs, .. } => cs.iter().any(|c| c.has_bitset()),
+            T::BUnion { cs, .. } | T::Inter { cs, .. } | T::SUnion { cs } | T::Disj { cs, .. } | T::DisMax { cs, .. } => cs.iter().any(|c| c.has_bitset()),
             T::Excl { u, es, .. } => u.has_bitset() || es.iter().any(|c| c.has_bitset()),
             T::ReqOpt { req, opt, .. } => req.has_bitset() || opt.has_bitset(),
         }
@@ -264,6 +287,7 @@ impl T {
             T::Excl { u, es, single } => T::Excl { u: Box::new(u.without_bitset()), es: es.iter().map(|c| c.without_bitset()).collect(), single: *single },
             T::ReqOpt { sum, req, opt } => T::ReqOpt { sum: *sum, req: Box::new(req.without_bitset()), opt: Box::new(opt.without_bitset()) },
             T::SUnion { cs } => T::SUnion { cs: cs.iter().map(|c| c.without_bitset()).collect() },
+            T::DisMax { tie4, cs, num_docs } => T::DisMax { tie4: *tie4, cs: cs.iter().map(|c| c.without_bitset()).collect(), num_docs: *num_docs },
             T::Disj { sum, min_match, cs } => T::Disj { sum: *sum, min_match: *min_match, cs: cs.iter().map(|c| c.without_bitset()).collect() },
         }
     }
@@ -285,6 +309,7 @@ impl T {
             T::Excl { u, es, single } => T::Excl { u: Box::new(u.flatten_unions()), es: es.iter().map(|c| c.flatten_unions()).collect(), single: *single },
             T::ReqOpt { sum, req, opt } => T::ReqOpt { sum: *sum, req: Box::new(req.flatten_unions()), opt: Box::new(opt.flatten_unions()) },
             T::SUnion { cs } => T::SUnion { cs: cs.iter().map(|c| c.flatten_unions()).collect() },
+            T::DisMax { tie4, cs, num_docs } => T::DisMax { tie4: *tie4, cs: cs.iter().map(|c| c.flatten_unions()).collect(), num_docs: *num_docs },
             T::Disj { sum, min_match, cs } => T::Disj { sum: *sum, min_match: *min_match, cs: cs.iter().map(|c| c.flatten_unions()).collect() },
         }
     }
@@ -356,6 +381,12 @@ fn build(t: &T) -> Built {
             };
             Built { scorer, model, dense: false }
         }
+        T::DisMax { tie4, cs, num_docs } => {
+            let bs: Vec<Built> = cs.iter().map(build).collect();
+            let model = format!("dismax-not-modelled;{}", bs.len());
+            let children: Vec<Box<dyn Scorer>> = bs.into_iter().map(|b| b.scorer).collect();
+            Built { scorer: tantivy::verif::c13_buffered_union_dismax(children, *tie4 as f32 / 4.0, *num_docs), model, dense: false }
+        }
         T::SUnion { cs } => {
             let bs: Vec<Built> = cs.iter().map(build).collect();
             let model = format!("su;{};{}", bs.len(), bs.iter().map(|b| b.model.clone()).collect::<Vec<_>>().join(";"));
@@ -390,6 +421,18 @@ fn gen_docs(rng: &mut Rng, max_doc: u32) -> Vec<u32> {
     let mut s: BTreeSet<u32> = BTreeSet::new();
     let style = rng.below(10);
     match style {
+        10 | 11 => {
+            // arithmetic progression spanning several union windows: every window offset that holds a
+            // document in one window holds one in the next windows too
+            let step = *rng.pick(&[3u32, 5, 7, 11]);
+            let start = rng.below(70) as u32;
+            let end = max_doc.min(start + HORIZON * 2 + 1500 + rng.below(3000) as u32);
+            let mut d = start;
+            while d < end {
+                s.insert(d);
+                d += step;
+            }
+        }
         0 => {}
         1 => {
             s.insert(rng.below(max_doc as u64) as u32);
@@ -650,7 +693,79 @@ fn gen_target(rng: &mut Rng, cur: &Cursor, lo: u32) -> u32 {
 }
 
 /// a legal program for a set whose full document list is `all`
+/// "bucket-skip sweep": an in-horizon seek over whole 64-doc buckets that still hold documents,
+/// then on to the end of the window, across the boundary by plain advances, and a sweep with
+/// `score()` at every document over the offsets that were skipped in the previous window
+fn gen_sweep(rng: &mut Rng, all: &[u32]) -> Vec<Call> {
+    let mut cur = Cursor { all, pos: 0, danger: None, counted: false };
+    let mut prog = vec![];
+    let push = |prog: &mut Vec<Call>, cur: &mut Cursor, c: Call| {
+        let c = match c {
+            Call::Seek(t) => Call::Seek(t.min(TERMINATED)),
+            other => other,
+        };
+        cur.step(&c);
+        prog.push(c);
+        if cur.doc() != TERMINATED {
+            prog.push(Call::Score);
+        }
+    };
+    if cur.doc() == TERMINATED {
+        return vec![Call::Doc];
+    }
+    prog.push(Call::Score);
+    let mut ws = cur.doc();
+    for _ in 0..(1 + rng.below(2)) {
+        let d = cur.doc();
+        if d == TERMINATED || d - ws >= HORIZON - 200 {
+            break;
+        }
+        let lo_off = d - ws;
+        let b = 1 + rng.below(10) as u32;
+        let t1 = (d + 64 * b + rng.below(64) as u32).min(ws + HORIZON - 130);
+        if t1 <= d {
+            break;
+        }
+        push(&mut prog, &mut cur, Call::Seek(t1));
+        let hi_off = t1 - ws;
+        for _ in 0..rng.below(4) {
+            push(&mut prog, &mut cur, Call::Adv);
+        }
+        // to the end of the window, then across by plain advances
+        let t2 = ws + HORIZON - 1 - rng.below(120) as u32;
+        if t2 > cur.doc() {
+            push(&mut prog, &mut cur, Call::Seek(t2));
+        }
+        let mut guard = 0;
+        while cur.doc() != TERMINATED && cur.doc() < ws + HORIZON && guard < 200 {
+            push(&mut prog, &mut cur, Call::Adv);
+            guard += 1;
+        }
+        if cur.doc() == TERMINATED || cur.doc() < ws + HORIZON {
+            break;
+        }
+        ws = cur.doc();
+        // sweep the offsets skipped in the previous window
+        if lo_off > 64 && rng.chance(1, 2) {
+            let t3 = ws + lo_off;
+            if t3 > cur.doc() {
+                push(&mut prog, &mut cur, Call::Seek(t3));
+            }
+        }
+        let mut n = 0;
+        while cur.doc() != TERMINATED && cur.doc() <= ws + hi_off + 64 && n < 450 {
+            push(&mut prog, &mut cur, Call::Adv);
+            n += 1;
+        }
+    }
+    prog
+}
+
 fn gen_program(rng: &mut Rng, all: &[u32], want_scores: bool) -> Vec<Call> {
+    if want_scores && all.len() >= 2 && rng.chance(1, 5) {
+        return gen_sweep(rng, all);
+    }
+    let score_dense = want_scores && rng.chance(1, 3);
     let mut cur = Cursor { all, pos: 0, danger: None, counted: false };
     let mut prog = vec![];
     let maxlen = *rng.pick(&[4usize, 12, 30, 60]);
@@ -706,7 +821,7 @@ fn gen_program(rng: &mut Rng, all: &[u32], want_scores: bool) -> Vec<Call> {
             prog.extend([Call::Doc, Call::Adv, Call::Doc]);
             break;
         }
-        if moved && cur.danger.is_none() && want_scores && cur.doc() != TERMINATED && rng.chance(1, 3) {
+        if moved && cur.danger.is_none() && want_scores && cur.doc() != TERMINATED && (score_dense || rng.chance(1, 3)) {
             prog.push(Call::Score);
         }
     }
@@ -849,7 +964,7 @@ fn judge_oracle(
                         } else {
                             "C13:score-path-dependent"
                         };
-                        v.oracle.push((key.into(), format!("call {i} score() at doc {before_doc} = {} but a fresh scorer advanced to that doc gives {}", &got[2..], &e[2..])));
+                        v.oracle.push((key.into(), format!("call {i} score() at doc {before_doc} = {} but the reference score of that doc is {} (direct trees: brute-force combination of the children's scores; queries: a fresh scorer advanced to it)", &got[2..], &e[2..])));
                         if key == "C13:score-path-dependent" {
                             return v;
                         }
@@ -984,6 +1099,9 @@ fn attribute(t: &T, prog: &[Call], obs: &[String], key: &str, what: &str) -> Str
 
 /// one direct case; returns true if something was reported
 fn check_direct(ctx: &mut Ctx, t: &T, prog: &[Call], label: &str) -> bool {
+    if label.starts_with("corpus") && std::env::var("C13_TRACE").is_ok() {
+        eprintln!("c13: {label} start");
+    }
     let case = json!({"kind": "direct", "tree": t, "prog": prog.iter().map(|c| c.text()).collect::<Vec<_>>()});
     let all = t.docs();
     let ptext = prog_text(prog);
@@ -1023,7 +1141,7 @@ fn check_direct(ctx: &mut Ctx, t: &T, prog: &[Call], label: &str) -> bool {
             return check_direct(ctx, t, &p, "fresh");
         }
         for (d, s) in fdocs.iter().zip(fscores.iter()) {
-            let e = t.score_at(*d).unwrap_or(0) as f32;
+            let e = t.score_f32(*d).unwrap_or(0.0);
             if *s != e {
                 ctx.report.violation("oracle", "C13:advance-score-wrong", format!("{top}: fresh scorer advanced to {d} scores {s}, brute force {e}"), case);
                 return true;
@@ -1051,10 +1169,18 @@ fn check_direct(ctx: &mut Ctx, t: &T, prog: &[Call], label: &str) -> bool {
         ctx.report.notes.push(format!("model tree: {tree}"));
     }
     // expected scores: the brute-force combination (equal to the fresh scorer's, checked above)
-    let score_of = |d: u32| -> Option<String> { t.score_at(d).map(|x| format!("x:{x}")) };
+    let score_of = |d: u32| -> Option<String> { t.score_f32(d).map(fmt_score) };
     let mut first: Option<(String, String)> = incons.first().map(|x| ("C13:return-differs-from-doc".to_string(), x.clone()));
     if first.is_none() {
         first = judge_oracle("direct", false, &all, prog, &obs, &docs_after, &score_of, false).oracle.into_iter().next();
+    }
+    if t.has_dismax() {
+        // not modelled: the oracle alone decides (these programs contain no fill_buffer / count)
+        if let Some((k, w)) = first {
+            ctx.report.violation("oracle", &k, format!("{top}: {w}"), case.clone());
+            return true;
+        }
+        return false;
     }
     // the Lean implementation-level model of the code as it is, call by call (incl. doc() after each call)
     let m0 = model_run(ctx, "-", &tree, prog);
@@ -1151,6 +1277,8 @@ enum Q {
     Bool(Vec<(u8, Q)>, usize),
     Boost(Box<Q>, u32),
     Const(Box<Q>, u32),
+    /// `DisjunctionMaxQuery::with_tie_breaker(children, tie4 / 4)`
+    DisMax(Vec<Q>, u8),
 }
 
 #[derive(Serialize, Deserialize, Clone, Debug)]
@@ -1227,6 +1355,7 @@ fn make_query(q: &Q, text: tantivy::schema::Field) -> Box<dyn Query> {
         }
         Q::Boost(q, b) => Box::new(BoostQuery::new(make_query(q, text), *b as f32)),
         Q::Const(q, s) => Box::new(ConstScoreQuery::new(make_query(q, text), *s as f32)),
+        Q::DisMax(cs, tie4) => Box::new(DisjunctionMaxQuery::with_tie_breaker(cs.iter().map(|c| make_query(c, text)).collect(), *tie4 as f32 / 4.0)),
     }
 }
 
@@ -1247,7 +1376,32 @@ fn gen_query(rng: &mut Rng, depth: usize) -> Q {
     if depth == 0 || rng.chance(1, 4) {
         return leaf(rng);
     }
-    match rng.below(8) {
+    match rng.below(11) {
+        8 => {
+            // DisjunctionMaxQuery with tie breaker over leaf-like disjuncts
+            let n = 2 + rng.usize_below(2);
+            let cs: Vec<Q> = (0..n)
+                .map(|_| match rng.below(5) {
+                    0 => Q::Phrase(vec![rng.pick(&WORDS[..3]).to_string(), rng.pick(&WORDS[..3]).to_string()], 0),
+                    1 => Q::Const(Box::new(Q::Term(rng.pick(&WORDS).to_string())), 1 + rng.below(4) as u32),
+                    2 => Q::Boost(Box::new(Q::Term(rng.pick(&WORDS).to_string())), 2),
+                    _ => Q::Term(rng.pick(&WORDS).to_string()),
+                })
+                .collect();
+            return Q::DisMax(cs, 1 + rng.below(3) as u8);
+        }
+        9 | 10 => {
+            // conjunction with a scoring phrase leg (leading or not, by cost) whose phrase count varies
+            let ph = Q::Phrase(vec![rng.pick(&WORDS[..3]).to_string(), rng.pick(&WORDS[..3]).to_string()], rng.below(2) as u32);
+            let mut cs = vec![(0u8, Q::Term(rng.pick(&WORDS[..5]).to_string())), (0u8, ph)];
+            if rng.chance(1, 3) {
+                cs.push((rng.below(2) as u8, Q::Term(rng.pick(&WORDS).to_string())));
+            }
+            if rng.chance(1, 2) {
+                cs.swap(0, 1);
+            }
+            return Q::Bool(cs, 0);
+        }
         0 => Q::Boost(Box::new(gen_query(rng, depth - 1)), 2 + rng.below(3) as u32),
         1 => Q::Const(Box::new(gen_query(rng, depth - 1)), 1 + rng.below(5) as u32),
         _ => {
@@ -1276,6 +1430,7 @@ fn contains_should(q: &Q) -> bool {
     match q {
         Q::Bool(cs, _) => cs.iter().any(|(o, c)| *o == 1 || contains_should(c)),
         Q::Boost(q, _) | Q::Const(q, _) => contains_should(q),
+        Q::DisMax(cs, _) => cs.len() >= 2 || cs.iter().any(contains_should),
         _ => false,
     }
 }
@@ -1283,6 +1438,7 @@ fn contains_conjunction(q: &Q) -> bool {
     match q {
         Q::Bool(cs, _) => cs.iter().filter(|(o, _)| *o != 2).count() >= 2 || cs.iter().any(|(_, c)| contains_conjunction(c)),
         Q::Boost(q, _) | Q::Const(q, _) => contains_conjunction(q),
+        Q::DisMax(cs, _) => cs.iter().any(contains_conjunction),
         Q::Phrase(..) | Q::PhrasePrefix(_) => true,
         _ => false,
     }
@@ -1311,6 +1467,38 @@ fn is_top_should_union(q: &Q) -> bool {
         }
         Q::Boost(q, _) | Q::Const(q, _) => is_top_should_union(q),
         _ => false,
+    }
+}
+
+/// query shapes whose score has a closed form in the scores of their leaves
+fn brute_supported(q: &Q) -> bool {
+    match q {
+        Q::Term(_) | Q::Phrase(..) => true,
+        // (boost is not applied by every leaf weight, e.g. PhrasePrefixWeight ignores it: a C12 matter)
+        Q::PhrasePrefix(_) | Q::Range(..) | Q::All => false,
+        Q::Boost(q, _) => brute_supported(q),
+        Q::Const(_, _) => true,
+        Q::DisMax(cs, _) => cs.iter().all(brute_supported),
+        Q::Bool(..) => false,
+    }
+}
+
+/// brute-force score of `d`: leaves from a fresh leaf scorer sought to `d`, combined by the formulas
+fn brute_score(q: &Q, d: u32, leaf: &dyn Fn(&Q, u32) -> Option<f32>) -> Option<f32> {
+    match q {
+        Q::Term(_) | Q::Phrase(..) | Q::PhrasePrefix(_) | Q::Range(..) | Q::All => leaf(q, d),
+        Q::Boost(q, b) => brute_score(q, d, leaf).map(|s| s * *b as f32),
+        Q::Const(q, c) => brute_score(q, d, leaf).map(|_| *c as f32),
+        Q::DisMax(cs, tie4) => {
+            let v: Vec<f32> = cs.iter().filter_map(|c| brute_score(c, d, leaf)).collect();
+            if v.is_empty() {
+                return None;
+            }
+            let max = v.iter().cloned().fold(f32::MIN, f32::max);
+            let sum: f32 = v.iter().sum();
+            Some(max + (sum - max) * (*tie4 as f32 / 4.0))
+        }
+        Q::Bool(..) => None,
     }
 }
 
@@ -1357,10 +1545,78 @@ fn check_query(ctx: &mut Ctx, index: &Index, text: tantivy::schema::Field, spec:
         return;
     }
     let mut prng = Rng::new(prog_seed);
+    // score path independence beyond the generated program: at sampled documents (window ends, every
+    // 4096 docs, random) the score of plain advance must equal the score of a fresh scorer that seeks
+    // directly to the document, and the closed-form combination of the leaves' scores where there is one
+    if scoring && !fdocs.is_empty() {
+        let mut idx: BTreeSet<usize> = BTreeSet::new();
+        if let Some(fp) = &fixed_prog {
+            // replay: the documents the recorded program seeks to
+            for c in fp {
+                if let Call::Seek(t) = c {
+                    if let Ok(i) = fdocs.binary_search(t) {
+                        idx.insert(i);
+                    }
+                }
+            }
+        } else {
+            idx.extend([0usize, 1, fdocs.len() - 1].into_iter().filter(|i| *i < fdocs.len()));
+        }
+        for k in 1..(if fixed_prog.is_none() { 4u32 } else { 0 }) {
+            let t = fdocs[0].saturating_add(k * HORIZON);
+            let i = fdocs.partition_point(|d| *d < t);
+            for j in [i.saturating_sub(1), i, i + 1, i + 40] {
+                if j < fdocs.len() {
+                    idx.insert(j);
+                }
+            }
+        }
+        for _ in 0..(if fixed_prog.is_none() { 10 } else { 0 }) {
+            idx.insert(prng.usize_below(fdocs.len()));
+        }
+        let close = |a: f32, b: f32| (a - b).abs() <= 1e-4 * b.abs().max(1.0);
+        let enable = EnableScoring::enabled_from_searcher(&searcher);
+        let leaf = |lq: &Q, d: u32| -> Option<f32> {
+            let w = make_query(lq, text).weight(enable).ok()?;
+            let mut s = w.scorer(seg, 1.0).ok()?;
+            if s.doc() > d {
+                return None;
+            }
+            if s.seek(d) == d { Some(s.score()) } else { None }
+        };
+        for i in idx {
+            let d = fdocs[i];
+            let by_seek = catch_unwind(AssertUnwindSafe(|| {
+                let mut s = mk().ok()?;
+                if s.seek(d) == d { Some(s.score()) } else { None }
+            }));
+            ctx.report.count("query:score-seek-vs-advance");
+            match by_seek {
+                Ok(Some(x)) if close(x, fscores[i]) => {}
+                Ok(other) => {
+                    ctx.report.violation("oracle", "C13:score-advance-vs-seek", format!("{:?}: score at doc {d} is {} by plain advance but {:?} on a fresh scorer that seeks to it", q, fscores[i], other), mk_case(&[Call::Seek(d), Call::Score]));
+                    return;
+                }
+                Err(_) => {
+                    ctx.report.violation("oracle", panic_key(), format!("{:?}: panic in seek({d}) on a fresh scorer: {}", q, last_panic()), mk_case(&[Call::Seek(d)]));
+                    return;
+                }
+            }
+            if brute_supported(q) {
+                ctx.report.count("query:score-vs-closed-form");
+                if let Some(e) = brute_score(q, d, &leaf) {
+                    if !close(fscores[i], e) {
+                        ctx.report.violation("oracle", "C13:score-not-combination-of-leaves", format!("{:?}: score at doc {d} is {} by plain advance but the combination of the leaves' scores is {e}", q, fscores[i]), mk_case(&[Call::Seek(d), Call::Score]));
+                        return;
+                    }
+                }
+            }
+        }
+    }
     let prog = fixed_prog.unwrap_or_else(|| gen_program(&mut prng, &fdocs, true));
     let ptext = prog_text(&prog);
     let case = mk_case(&prog);
-    let qkind = match q { Q::Term(_) => "term", Q::All => "all", Q::Phrase(..) => "phrase", Q::PhrasePrefix(_) => "phrase-prefix", Q::Range(..) => "range", Q::Bool(_, 0) => "bool", Q::Bool(..) => "bool-msm", Q::Boost(..) => "boost", Q::Const(..) => "const" };
+    let qkind = match q { Q::Term(_) => "term", Q::All => "all", Q::Phrase(..) => "phrase", Q::PhrasePrefix(_) => "phrase-prefix", Q::Range(..) => "range", Q::Bool(_, 0) => "bool", Q::Bool(..) => "bool-msm", Q::Boost(..) => "boost", Q::Const(..) => "const", Q::DisMax(..) => "dismax" };
     ctx.report.count(&format!("query:{qkind}"));
     ctx.report.count(if scoring { "query:scoring" } else { "query:no-scoring" });
     let nontrivial = fdocs.len() >= 2 && prog.len() >= 3 && prog.iter().any(|c| matches!(c, Call::Seek(_) | Call::Danger(_) | Call::Fill | Call::Bits(_)));
@@ -1546,6 +1802,11 @@ fn corpus(ctx: &mut Ctx) {
     let u9 = T::BUnion { sum: true, cs: vec![xy, leaf(vec![0, 10000], 1)], num_docs: 10_011 };
     let t9 = T::Inter { cs: vec![leaf(vec![0, 10000, 10005], 1), u9], num_docs: u32::MAX };
     check_direct(ctx, &t9, &[Call::Doc, Call::Adv, Call::Adv, Call::Adv], "corpus-union-child-danger");
+    // score slots of skipped buckets / of earlier windows must not leak (seeded C13-A, C12-A shapes)
+    let t10 = T::BUnion { sum: true, cs: vec![leaf(vec![0, 100, 5000], 2), leaf(vec![100, 5100], 5)], num_docs: 6000 };
+    check_direct(ctx, &t10, &[Call::Score, Call::Seek(4000), Call::Score, Call::Adv, Call::Score], "corpus-union-skipped-buckets-scores");
+    let t11 = T::DisMax { tie4: 2, cs: vec![leaf(vec![0, 5000, 5001], 4), leaf(vec![0, 5000, 9000], 2)], num_docs: 10_000 };
+    check_direct(ctx, &t11, &[Call::Score, Call::Adv, Call::Score, Call::Adv, Call::Score, Call::Seek(9000), Call::Score], "corpus-dismax-reused-slots");
 }
 
 pub fn replay(ctx: &mut Ctx, case: &serde_json::Value) {
@@ -1570,6 +1831,9 @@ pub fn run(ctx: &mut Ctx) {
     std::panic::set_hook(Box::new(|info| {
         if let Ok(mut s) = LAST_PANIC.lock() {
             *s = info.to_string().chars().take(300).collect();
+            if std::env::var("C13_TRACE").is_ok() {
+                eprintln!("c13 panic: {}", s);
+            }
         }
     }));
     ctx.report.rule = "case = (scorer tree or query on a generated index, legal call program); non-trivial = the set has ≥ 2 \
@@ -1592,7 +1856,11 @@ pub fn run(ctx: &mut Ctx) {
     if consts != expect {
         ctx.report.violation("model", "C13:constants-differ", format!("model constants `{consts}` vs harness `{expect}`"), json!({"kind": "consts"}));
     }
+    let t_start = std::time::Instant::now();
     corpus(ctx);
+    if std::env::var("C13_TRACE").is_ok() {
+        eprintln!("c13: corpus done {:?}", t_start.elapsed());
+    }
     // (a) direct combinators
     let n_direct = ctx.budget(3000, 150_000);
     for i in 0..n_direct {
@@ -1603,20 +1871,78 @@ pub fn run(ctx: &mut Ctx) {
         let t = gen_tree(&mut rng, depth, max_doc, &mut pool);
         let all = t.docs();
         let progs = 1 + rng.usize_below(2);
+        if i % 100 == 0 && std::env::var("C13_TRACE").is_ok() {
+            eprintln!("c13: direct {i} {:?} reqs {}", t_start.elapsed(), ctx.model.requests);
+        }
         for _ in 0..progs {
             let prog = gen_program(&mut rng, &all, true);
+            if std::env::var("C13_TRACE").is_ok() {
+                eprintln!("c13: case {i} top {} docs {} prog {} last {:?}", t.top(), all.len(), prog_text(&prog), all.last());
+            }
             let reported = check_direct(ctx, &t, &prog, "gen");
             if !reported && i < 3 && ctx.report.samples.len() < 3 {
                 ctx.report.sample(json!({"tree": t.top(), "depth": t.depth(), "docs": all.len(), "program": prog_text(&prog)}));
             }
         }
     }
+    if std::env::var("C13_TRACE").is_ok() {
+        eprintln!("c13: direct done {:?}", t_start.elapsed());
+    }
+    // (a') scoring unions (SumCombiner / DisjunctionMaxCombiner with tie breaker) whose children span
+    // several windows: bucket-skipping in-horizon seeks, far seeks, advances across window ends, with
+    // score() at every position compared with the brute-force combination of the children's scores
+    let n_union = ctx.budget(250, 20_000);
+    for _ in 0..n_union {
+        let mut rng = ctx.rng.fork();
+        let max_doc = *rng.pick(&[9500u32, 13_000, 20_000]);
+        let n = 2 + rng.usize_below(3);
+        let mut pool = vec![];
+        let cs: Vec<T> = (0..n)
+            .map(|_| {
+                if rng.chance(2, 3) {
+                    // progression / dense leaf
+                    let step = *rng.pick(&[5u32, 7, 11, 13, 31, 64]);
+                    let start = rng.below(200) as u32;
+                    let end = max_doc.min(start + HORIZON * 2 + 500 + rng.below(4000) as u32);
+                    let docs: Vec<u32> = (start..end).step_by(step as usize).filter(|_| rng.chance(7, 8)).collect();
+                    T::Leaf { docs, score: 1 + rng.below(7) as u32, kind: if rng.chance(1, 4) { 1 } else { 0 } }
+                } else {
+                    let dd = *rng.pick(&[0usize, 0, 1]);
+                    gen_tree(&mut rng, dd, max_doc, &mut pool)
+                }
+            })
+            .collect();
+        let dismax = rng.chance(2, 5);
+        let t = if dismax {
+            T::DisMax { tie4: 1 + rng.below(2) as u8, cs, num_docs: max_doc + 1 }
+        } else {
+            T::BUnion { sum: true, cs, num_docs: max_doc + 1 }
+        };
+        let all = t.docs();
+        let mut prog = if rng.chance(3, 5) { gen_sweep(&mut rng, &all) } else { gen_program(&mut rng, &all, true) };
+        if dismax {
+            // fill_buffer / count are excluded here (known findings that need the model to attribute)
+            if let Some(i) = prog.iter().position(|c| matches!(c, Call::Count)) {
+                prog.truncate(i);
+            }
+            for c in prog.iter_mut() {
+                if matches!(c, Call::Fill) {
+                    *c = Call::Adv;
+                }
+            }
+        }
+        ctx.report.count(if dismax { "stream:dismax-union" } else { "stream:sum-union" });
+        check_direct(ctx, &t, &prog, "union-windows");
+    }
+    if std::env::var("C13_TRACE").is_ok() {
+        eprintln!("c13: union stream done {:?}", t_start.elapsed());
+    }
     // (b) real queries
     let n_index = ctx.budget(3, 12);
     let per_index = ctx.budget(250, 4000);
     for k in 0..n_index {
         let mut rng = ctx.rng.fork();
-        let n = [9000u32, 300, 4200, 1, 130, 13_000][k as usize % 6];
+        let n = [9000u32, 300, 13_000, 4200, 1, 130][k as usize % 6];
         let spec = IndexSpec { n, seed: rng.next_u64() };
         let (index, text, _num) = build_index(&spec);
         for j in 0..per_index {
